@@ -20,7 +20,7 @@ META = {
                'thorough': 'more reaction lists, 4 cells'},
     'outside': ['Ulam transition tables as symbolic integers (np.unique on symbolic data is not modelled): that part is bounded enumeration', 'threshold > 0 in the SLIM SVD', 'rounding'],
     'assumptions': ['reaction products stay inside the state space (documented quantifier)', 'rates > 0 for the sign statement'],
-    'tv_per_scenario': {'quick': 1, 'thorough': 1},
+    'tv_per_scenario': {'quick': 1000, 'thorough': 1000},
 }
 
 
